@@ -271,6 +271,14 @@ func (e *executor) mergeVal(c smt.Term, a, b *Val) *Val {
 	if c.IsFalse() {
 		return b
 	}
+	// an undef pointer may take any value, in particular the one of the other path (the
+	// refinement LLVM itself is entitled to make): used on its own path it is still invalid
+	if a.IsPtr && b.IsPtr && a.Undef != b.Undef {
+		if a.Undef {
+			return b
+		}
+		return a
+	}
 	k := mergeKey{c.S, a, b}
 	if v, ok := e.mergeMemo[k]; ok {
 		return v
@@ -424,7 +432,28 @@ func (e *executor) mergeMem(c smt.Term, a, b *RegMem) *RegMem {
 				vb = e.assemble(bs)
 			}
 			if va.IsPtr != vb.IsPtr {
-				// a null pointer written as zero bytes
+				// a null pointer written as zero bytes; a stack slot that only one path has
+				// initialised (the other path's bytes are the alloca's undef initial contents)
+				uninit := func(m *RegMem) bool {
+					if e.mergingStackInit == "" || m.Base.S != e.mergingStackInit {
+						return false
+					}
+					for i := 0; i < n; i++ {
+						if _, written := m.Ov[k+int64(i)]; written {
+							return false
+						}
+					}
+					return true
+				}
+				if va.IsPtr && uninit(b) {
+					u := e.invalidPtr(smt.Term{})
+					u.Undef = true
+					vb = u
+				} else if vb.IsPtr && uninit(a) {
+					u := e.invalidPtr(smt.Term{})
+					u.Undef = true
+					va = u
+				}
 				fix := func(v *Val) *Val {
 					if v.IsPtr {
 						return v
